@@ -231,8 +231,13 @@ class HexRunner:
         self.rr_sync = bool(raw_tie and not prune and db is None)
         if self.rr_sync:
             res.emit("hx.rrnew", "ok")
+        # the tree-free executor (Model/HexFree.lean: root hash + database, raw-level _set/_delete produce the events, the pruning
+        # bookkeeping applies them) run alongside every direct operation of a fresh trie, pruning on or off, until a batch occurs
+        self.free_sync = db is None
+        if self.free_sync:
+            res.emit("hx.fnew %d" % (1 if prune else 0), "ok")
 
-    def call(self, line, fn, raw=None):
+    def call(self, line, fn, raw=None, free=None):
         try:
             fn()
             out = "ok"
@@ -240,6 +245,14 @@ class HexRunner:
             raise
         except Exception as e:  # noqa
             out = fmt_exc(e)
+        if free is not None and self.free_sync:
+            fk, fv = free
+            self.res.emit("hx.fop %s %s" % (hx(fk), "none" if fv is None else hx(fv)), out)
+            self.res.emit("hx.froot", hx(self.trie.root_hash))
+            self.res.emit("hx.fdb", fmt_db(self.db))
+            if self.prune:
+                self.res.emit("hx.fcounts", fmt_counts(self.trie.ref_count))
+            self.res.tags.add("tree-free-executor-tied")
         if raw is not None and out == "ok":
             # raw-level model (statement-by-statement transcription of _set/_delete over raw nodes) on the
             # database as it was before the call: new root and the entries the call added
@@ -283,23 +296,23 @@ class HexRunner:
         if kind == "set":
             v = bytes.fromhex(op[2])
             raw = raw_before and raw_before + (k, v)
-            out = self.call("hx.set %s %s %s" % (tg, hx(k), hx(v)), lambda: trie.set(sub_bytes(k, len(v)), sub_bytes(v, len(k) + len(v))), raw)
+            out = self.call("hx.set %s %s %s" % (tg, hx(k), hx(v)), lambda: trie.set(sub_bytes(k, len(v)), sub_bytes(v, len(k) + len(v))), raw, (k, v) if tg == "0" else None)
         elif kind == "setitem":
             v = bytes.fromhex(op[2])
             raw = raw_before and raw_before + (k, v)
-            out = self.call("hx.set %s %s %s" % (tg, hx(k), hx(v)), lambda: trie.__setitem__(k, v), raw)
+            out = self.call("hx.set %s %s %s" % (tg, hx(k), hx(v)), lambda: trie.__setitem__(k, v), raw, (k, v) if tg == "0" else None)
         elif kind == "sete":
             v = b""
             raw = raw_before and raw_before + (k, b"")
-            out = self.call("hx.set %s %s -" % (tg, hx(k)), lambda: trie.set(k, sub_bytes(b"", len(k))), raw)
+            out = self.call("hx.set %s %s -" % (tg, hx(k)), lambda: trie.set(k, sub_bytes(b"", len(k))), raw, (k, b"") if tg == "0" else None)
         elif kind == "del":
             v = b""
             raw = raw_before and raw_before + (k, None)
-            out = self.call("hx.del %s %s" % (tg, hx(k)), lambda: trie.delete(k), raw)
+            out = self.call("hx.del %s %s" % (tg, hx(k)), lambda: trie.delete(k), raw, (k, None) if tg == "0" else None)
         elif kind == "delitem":
             v = b""
             raw = raw_before and raw_before + (k, None)
-            out = self.call("hx.del %s %s" % (tg, hx(k)), lambda: trie.__delitem__(k), raw)
+            out = self.call("hx.del %s %s" % (tg, hx(k)), lambda: trie.__delitem__(k), raw, (k, None) if tg == "0" else None)
         else:
             raise ValueError(op)
         if out == "ok":
@@ -334,6 +347,7 @@ class HexRunner:
         ["failcommit", n] (the n-th write of the commit fails; needs a FailingDict)"""
         kind = exit_kind if isinstance(exit_kind, str) else exit_kind[0]
         self.rr_sync = False
+        self.free_sync = False
         self.res.tags.add("batch:" + kind)
         self.res.emit("hx.bbegin 0", "ok")
         bmodel = dict(self.model)
